@@ -197,10 +197,10 @@ func checkC10(c *core.Ctx) {
 	checkNextInvalidates(c, p)
 	// ---- R2b: UnNext typestate
 	checkUnNextTypestate(c, p)
+	// ---- R6 (first: R3 uses its path analysis)
+	checkErrorRecording(c, p)
 	// ---- R3
 	checkUnreadByte(c, p)
-	// ---- R6
-	checkErrorRecording(c, p)
 	// ---- R7
 	checkBlockCommentLength(c, p)
 	// ---- R10
@@ -520,6 +520,14 @@ func checkUnreadByte(c *core.Ctx, p *load.Prog) {
 			}
 			return true
 		})
+		// by paths (see checkErrorRecording): unreadByte() is only reached with the
+		// error of the read known to be nil; the syntactic test is the fall-back
+		// for a function whose read the path analysis does not see
+		if bad, analysed := unreadAfterFailedRead[fd]; analysed {
+			c.Check("R3", "unreadByte() in "+name+" follows a byte read whose error was tested", pos, !discards && bad == "",
+				fmt.Sprintf("readByte error discarded=%v; %s: at EOF or on a reader failure unreadByte() un-reads a byte of the previous token or panics", discards, bad))
+			continue
+		}
 		c.Check("R3", "unreadByte() in "+name+" follows a byte read whose error was tested", pos, !discards && tested,
 			fmt.Sprintf("readByte error discarded=%v, tested-with-return=%v: at EOF or on a reader failure unreadByte() un-reads a byte of the previous token or panics", discards, tested))
 	}
@@ -786,6 +794,11 @@ func constInt(info *types.Info, e ast.Expr) (int, bool) {
 // underlying reader records a non-EOF failure with addError(err) and stops;
 // the clean end-of-input sentinel addError(io.EOF) is only added where the
 // error was tested to be io.EOF.
+// unreadAfterFailedRead: per tokenizer function that reads, "" when every
+// unreadByte() in it is reached only with the read's error known to be nil,
+// otherwise what was found (filled by checkErrorRecording, read by R3).
+var unreadAfterFailedRead = map[*ast.FuncDecl]string{}
+
 func checkErrorRecording(c *core.Ctx, p *load.Prog) {
 	pkg := p.Bebop()
 	n := 0
@@ -879,6 +892,7 @@ func checkErrorRecording(c *core.Ctx, p *load.Prog) {
 		// only be reached where E is known to be io.EOF.
 		recorded, okSentinel := true, true
 		whyRec := ""
+		unreadBad := ""
 		if f := buildCFG(p, pkg, fd); f != nil {
 			info := pkg.TypesInfo
 			isE := func(e ast.Expr) bool {
@@ -902,7 +916,10 @@ func checkErrorRecording(c *core.Ctx, p *load.Prog) {
 				wNil   = 1
 				wEOF   = 2
 				wOther = 4
-				wAll   = 7
+				// bufio.ErrBufferFull: bufio asking its caller to come back for more
+				// of the line; not a failure of the underlying reader
+				wBuf = 8
+				wAll = 15
 			)
 			type st int
 			// three-valued evaluation of a condition in one case
@@ -971,6 +988,11 @@ func checkErrorRecording(c *core.Ctx, p *load.Prog) {
 							if w == wEOF {
 								r = vT
 							}
+						case "bufio.ErrBufferFull":
+							r = vF
+							if w == wBuf {
+								r = vT
+							}
 						default:
 							// another sentinel: only the "other" case can equal it
 							if w != wOther {
@@ -987,7 +1009,7 @@ func checkErrorRecording(c *core.Ctx, p *load.Prog) {
 			}
 			refine := func(cond ast.Expr, truth bool, s st) st {
 				out := 0
-				for _, w := range []int{wNil, wEOF, wOther} {
+				for _, w := range []int{wNil, wEOF, wOther, wBuf} {
 					if int(s)&w == 0 {
 						continue
 					}
@@ -1026,6 +1048,9 @@ func checkErrorRecording(c *core.Ctx, p *load.Prog) {
 					}
 					ast.Inspect(n, func(m ast.Node) bool {
 						call, ok := m.(*ast.CallExpr)
+						if ok && isMethodCall(call, "tr", "unreadByte") && int(s)&^wNil != 0 {
+							unreadBad = "unreadByte() at " + p.Pos(call.Pos()) + " is reachable with the error of the read possibly not nil"
+						}
 						if !ok || !isMethodCall(call, "tr", "addError") || len(call.Args) != 1 {
 							return true
 						}
@@ -1080,6 +1105,7 @@ func checkErrorRecording(c *core.Ctx, p *load.Prog) {
 				}
 			}
 		}
+		unreadAfterFailedRead[fd] = unreadBad
 		c.Check("R6", name+" records a failing read of the underlying reader as an error", p.Pos(fd.Pos()), recorded,
 			whyRec+": a reader failure is lost or mistaken for the end of the input")
 		c.Check("R6", name+" adds the end-of-input sentinel only for io.EOF", p.Pos(fd.Pos()), okSentinel,
